@@ -41,6 +41,19 @@ def tables():
             for w in sorted(Lg["short_months"], key=lambda s: s.encode()):
                 months[Lg["short_months"][w] - 1].append(w)
                 keep_short[Lg["short_months"][w] - 1] = w
+            # a text alias whose replacement is a keyword, operator word or month name is one more spelling of it
+            for w, v in Lg.get("alias", {}).items():
+                if v.startswith("["):
+                    continue
+                for k_, ws in consts.items():
+                    if v in ws and w not in ws:
+                        ws.append(w)
+                for ws in months:
+                    if v in ws and w not in ws:
+                        ws.append(w)
+                for ws in ops.values():
+                    if v in ws and w not in ws:
+                        ws.append(w)
             dur_words = set()
             for f in Lg["format"]["duration"]:
                 dur_words |= set(re.sub(r"\{\w+\}", "", f["format"]).split())
